@@ -54,6 +54,10 @@ TQuiescent == Step("quiescent") /\ UNCHANGED <<avars, scen, obs, how, relR, relW
    IF Fld(E, "pending", "none") \in {"send", "sub"} THEN NoFlag
    ELSE IF \E c \in obs : c \notin relW THEN LET c == CHOOSE x \in obs : x \notin relW IN Flag("C16/not-released:w:" \o stype \o ":" \o how[c])
    ELSE IF \E c \in obs : c \notin relR THEN LET c == CHOOSE x \in obs : x \notin relR IN Flag("C16/not-released:r:" \o stype \o ":" \o how[c])
+   \* a socket that never reads in its calls (PUB, PUSH) must notice a peer's orderly end by itself, or it keeps every
+   \* connection that ever closed: by the next quiescent point (its tasks have run) the end has been observed
+   ELSE IF stype \in {"PUB", "PUSH"} /\ \E c \in conn : c \in DOMAIN cut /\ cut[c] = "eof" /\ c \notin obs /\ ~(c \in relR /\ c \in relW)
+        THEN Flag("C16/end-not-noticed:" \o stype)
    ELSE NoFlag
 TPanic == Step("panic") /\ UNCHANGED <<avars, scen, lv>> /\ Flag("C03/panic")
 \* a connection announces the identity of an older one: from the moment its registration starts the older one may be let go
